@@ -47,11 +47,13 @@ type kProcPlan struct {
 	OutageAt  time.Duration // 0 = none; measured from process start
 	OutageFor time.Duration
 	Attempts  int
+	// the n-th lock-file Remove of this process is applied but reported as failed (0 = none)
+	RemoveLostOn int
 }
 
 func (p kProcPlan) String() string {
-	return fmt.Sprintf("{off=%v host=%s start=%v excl=%v retry=%v hold=%v work=%v end=%s janitor=%v stall=%d:%v outage=%v+%v attempts=%d}",
-		p.Offset, p.Host, p.Start, p.Excl, p.Retry, p.Hold, p.WorkEvery, p.End, p.Janitor, p.StallOn, p.Stall, p.OutageAt, p.OutageFor, p.Attempts)
+	return fmt.Sprintf("{off=%v host=%s start=%v excl=%v retry=%v hold=%v work=%v end=%s janitor=%v stall=%d:%v outage=%v+%v attempts=%d remove-lost=%d}",
+		p.Offset, p.Host, p.Start, p.Excl, p.Retry, p.Hold, p.WorkEvery, p.End, p.Janitor, p.StallOn, p.Stall, p.OutageAt, p.OutageFor, p.Attempts, p.RemoveLostOn)
 }
 
 func genLockPlans(tp *simrt.Tape) []kProcPlan {
@@ -73,7 +75,19 @@ func genLockPlans(tp *simrt.Tape) []kProcPlan {
 		p.End = []string{"unlock", "unlock", "crash"}[tp.Choose(3)]
 		p.Janitor = tp.Choose(3) == 0
 		p.Attempts = tp.Range(1, 3)
-		switch tp.Choose(5) {
+		switch tp.Choose(6) {
+		case 5: // the response of one lock-file removal is lost (applied, reported as failed)
+			p.RemoveLostOn = 1 + tp.Choose(3)
+			if p.Hold < 26*time.Minute {
+				p.Hold = 26 * time.Minute
+			}
+		case 4: // refreshes fail for a while, then one slow but successful refresh around the refreshability deadline
+			p.OutageAt = time.Duration(1+tp.Choose(4)) * time.Minute
+			p.OutageFor = time.Duration(13+tp.Choose(6)) * time.Minute
+			p.StallOn = 2
+			p.Stall = time.Duration(2+tp.Choose(5)) * time.Minute
+			p.Hold = 50 * time.Minute
+			p.Start = 0
 		case 1: // a stall inside one lock operation
 			p.StallOn = 1 + tp.Choose(4)
 			p.Stall = time.Duration(1+tp.Choose(6)) * time.Minute
@@ -192,24 +206,35 @@ func runLocks(r *hx.Rec, property string) {
 			start  time.Time
 			faulty bool
 			// lock files this process removed itself (name -> true)
-			unlockedClean bool
+			unlockedClean      bool
+			lockRemovedByOther bool
+			staleSig           string // signature of the first stops-before-stale episode of the current belief
 		}
 		var mu sync.Mutex
 		procs := make([]*pstate, len(plans))
 		byPID := map[int]*pstate{}
 		lockFiles := map[string]lockInfo{} // lock files ever saved
 		removedBy := map[string]int{}      // lock file name -> PID of the remover
+		conflictSig := map[string]string{} // pair of processes -> signature of their conflict episode
 
 		for i, pl := range plans {
 			p := s.NewProc(fmt.Sprintf("p%d", i+1), 2000+i, pl.Host)
 			p.ClockOffset = pl.Offset
 			cl := store.NewClient(p, 4, true)
 			ps := &pstate{plan: pl, proc: p, cl: cl}
-			ps.faulty = pl.StallOn != 0 || pl.OutageAt != 0 || pl.End == "crash"
+			ps.faulty = pl.StallOn != 0 || pl.OutageAt != 0 || pl.End == "crash" || pl.RemoveLostOn != 0
 			procs[i] = ps
 			byPID[p.PID] = ps
 			lockSaves := 0
+			lockRemoves := 0
 			cl.Script = func(op string, h backend.Handle, n int) *simbe.Forced {
+				if h.Type == backend.LockFile && op == "Remove" && pl.RemoveLostOn != 0 {
+					lockRemoves++
+					if lockRemoves == pl.RemoveLostOn {
+						s.Count("fault:lock-remove-response-lost")
+						return &simbe.Forced{Kind: "err-after"}
+					}
+				}
 				if pl.OutageAt != 0 && !ps.start.IsZero() {
 					el := time.Since(ps.start)
 					if el >= pl.OutageAt && el < pl.OutageAt+pl.OutageFor {
@@ -282,12 +307,17 @@ func runLocks(r *hx.Rec, property string) {
 					return
 				}
 				holder := byPID[li.PID]
+				if holder != nil && m.Client != holder.cl {
+					// somebody else removed one of the holder's lock files: from now on the holder may
+					// legitimately end up without any lock file (it notices and gives up)
+					holder.lockRemovedByOther = true
+				}
 				if holder == nil || m.Client != holder.cl {
 					return
 				}
 				// (d) the holder removed one of its own lock files: while it still believes to
 				// hold the lock another lock file of its own must exist at this instant
-				if holder.belief.active && holder.belief.ctx.Err() == nil {
+				if holder.belief.active && holder.belief.ctx.Err() == nil && !holder.lockRemovedByOther {
 					if _, ok := newest(holder); !ok {
 						fail("no-gap", "gap-without-lock-file", "%s removed its lock file %s while holding the lock and has no other lock file in the repository at that instant", holder.proc.Name, m.H.Name[:8])
 					}
@@ -314,7 +344,17 @@ func runLocks(r *hx.Rec, property string) {
 			// judged stale yet by any other process within the assumed clock bound
 			if li, ok := newest(holder); ok {
 				if stale, who := staleFor(holder, li); stale {
-					fail("stops-before-stale", "modification-after-stale", "%s starts %s %v although its newest lock file (timestamp %v) is already stale for another process: %s", holder.proc.Name, op, h, li.Time.Format("15:04:05"), who)
+					sig := "modification-after-stale"
+					if holder.cl.InFlightLock > 0 {
+						// a lock-file operation of the holder (a stalled refresh) is in flight at this instant
+						sig = "modification-after-stale-while-refresh-in-flight"
+					}
+					// one episode keeps the signature it started with
+					if holder.staleSig == "" {
+						holder.staleSig = sig
+					}
+					sig = holder.staleSig
+					fail("stops-before-stale", sig, "%s starts %s %v although its newest lock file (timestamp %v) is already stale for another process: %s", holder.proc.Name, op, h, li.Time.Format("15:04:05"), who)
 				}
 			}
 		})
@@ -331,7 +371,17 @@ func runLocks(r *hx.Rec, property string) {
 						continue
 					}
 					if p.belief.excl || q.belief.excl {
-						fail("exclusion", "conflicting-locks", "%s (exclusive=%v) and %s (exclusive=%v) both believe they hold the lock at t=%v", p.proc.Name, p.belief.excl, q.proc.Name, q.belief.excl, s.Elapsed())
+						sig := "conflicting-locks"
+						if p.cl.InFlightLock > 0 || q.cl.InFlightLock > 0 {
+							sig = "conflicting-locks-while-refresh-in-flight"
+						}
+						// one episode (pair of overlapping beliefs) keeps the signature it started with
+						pk := p.proc.Name + "/" + q.proc.Name
+						if conflictSig[pk] == "" {
+							conflictSig[pk] = sig
+						}
+						sig = conflictSig[pk]
+						fail("exclusion", sig, "%s (exclusive=%v) and %s (exclusive=%v) both believe they hold the lock at t=%v", p.proc.Name, p.belief.excl, q.proc.Name, q.belief.excl, s.Elapsed())
 					}
 				}
 				// C13 (a): without faults a fresh lock file of the holder always exists
@@ -377,6 +427,8 @@ func runLocks(r *hx.Rec, property string) {
 					r.Count("lock_acquired", 1)
 					mu.Lock()
 					ps.belief = kBelief{active: true, excl: pl.Excl, ctx: lctx}
+					ps.lockRemovedByOther = false
+					ps.staleSig = ""
 					mu.Unlock()
 					// work while the lock context is live
 					begin := time.Now()
